@@ -119,12 +119,38 @@ pub fn guard<F: FnOnce() -> String>(f: F) -> String {
 
 // ------------------------------------------------------------------ helpers
 
+/// Unit names of every quantity type in the MODEL's order, keyed by the Rust type name of the
+/// unit enum (generated from the model's dump).  Operations address units by their index in the
+/// model's table and the harness resolves the index through the unit's NAME, so that an
+/// operation means the same unit on both sides even when `iter()` yields another order (the
+/// order itself is what the `reg` operation reports).
+fn model_names<U: Unit>() -> Option<&'static [&'static str]> {
+    static NAMES: std::sync::OnceLock<std::collections::HashMap<&'static str, &'static [&'static str]>> =
+        std::sync::OnceLock::new();
+    NAMES
+        .get_or_init(|| gen_dispatch::model_unit_names().into_iter().collect())
+        .get(std::any::type_name::<U>())
+        .copied()
+}
+
 pub fn unit_at<U: Unit>(i: usize) -> U {
-    U::iter().nth(i).expect("unit index out of range")
+    match model_names::<U>() {
+        Some(names) => {
+            let n = *names.get(i).expect("unit index out of range");
+            U::iter().find(|u| u.name() == n).expect("unit of the model not in iter()")
+        }
+        None => U::iter().nth(i).expect("unit index out of range"),
+    }
 }
 
 pub fn ix_of<U: Unit>(u: U) -> usize {
-    U::iter().position(|v| v == u).expect("unit not in iter()")
+    match model_names::<U>() {
+        Some(names) => {
+            let n = u.name();
+            names.iter().position(|m| *m == n).expect("unit not in the model")
+        }
+        None => U::iter().position(|v| v == u).expect("unit not in iter()"),
+    }
 }
 
 pub fn qstr<Q: Quantity>(q: Q) -> String {
